@@ -274,6 +274,8 @@ struct World {
     valid_acks: u32,
     near_miss: u32,
     crossings: u32,
+    /// leases accepted whose T1/T2 pair the client cannot use as given (it must fall back to the defaults)
+    unusable_t1_t2_leases: u32,
     reply_kinds: Vec<u8>,
 }
 
